@@ -509,6 +509,14 @@ def ansi_input(rng):
 
 
 NUMERIC_SGR = re.compile('\x1b\\[[0-9;]*m')
+CSI_RE = re.compile('\x1b\\[([^\x40-\x7e]*)([\x40-\x7e]?)')
+
+
+def strip_sgr(w):
+    """w with exactly its SGR sequences removed.  Control sequences are read left to right with the
+    grammar the library documents (ESC [, any characters outside 0x40-0x7E, one final byte); a sequence
+    is SGR when its final byte is 'm'.  Everything else, other control sequences included, is kept."""
+    return CSI_RE.sub(lambda m: '' if m.group(2) == 'm' else m.group(0), w)
 
 
 def c02_check(term, w, viol, payload):
@@ -517,7 +525,7 @@ def c02_check(term, w, viol, payload):
         viol.append({'oracle': 'C02.construct', 'case': payload, 'msg': 'AnsiString(%r) %s' % (w, r)})
         return
     s = r[1]
-    exp_text = SGR_RE.sub('', w)
+    exp_text = strip_sgr(w)
     if s.base_str != exp_text:
         viol.append({'oracle': 'C02.text', 'case': payload, 'msg': 'base_str %r, input without its SGR sequences is %r' % (s.base_str, exp_text)})
         return
@@ -736,6 +744,10 @@ def c12fmt_run(rep, rng, tier, term):
             continue
         for _ in range(5):
             spec, (fill, flag, align, width, ansi) = gen_spec(rng, len(base))
+            if fill == '' and flag and align:
+                # documented grammar .?[+-]?[<>^]?[0-9]* : the first character is the fill, so a lone +/- before
+                # the alignment character is read as the fill character, not as the flag
+                fill, flag = flag, ''
             payload = {'history': ops, 'object': i, 'spec': spec}
             rep.count(payload, bool(base))
             before = value_obs(o)
@@ -788,8 +800,20 @@ def c12fmt_run(rep, rng, tier, term):
                 shown = SGR_RE.sub('', got[1])
                 if pf is not None and shown != pf:
                     viol.append({'oracle': 'C12.format.text', 'case': payload, 'msg': 'format() shows %r, Python format gives %r' % (shown, pf)})
+        # an empty string_format followed by ansi directives (the README's "double colon" form)
+        for good, directive in ((':', None), (':5', '5'), (':31', '31'), (':red', 'red')):
+            payload = {'history': ops, 'object': i, 'spec': good}
+            rep.count(payload, True)
+            got = call(lambda: format(o, good))
+            c = AnsiString(o)
+            if directive:
+                c.apply_formatting(directive)
+            want = ('ok', str(c))
+            if got != want:
+                viol.append({'oracle': 'C12.format.empty_string_format', 'case': payload,
+                             'msg': 'format(s, %r) %s, apply_formatting(%r) on a copy gives %s' % (good, got, directive, want)})
         # outside the grammar -> ValueError
-        for bad in ('x5', '<<3<', '5<', '^5^', '+5', ' 5', 'ab<5'):
+        for bad in ('x5', '<<3<', '^5^', '+5', ' 5', 'ab<5', '5x', '<5x', '<5 ', 'a'):
             payload = {'history': ops, 'object': i, 'spec': bad}
             rep.count(payload, True)
             got = call(lambda: format(o, bad))
